@@ -453,22 +453,27 @@ func (obj *SparseReal64Vector) Permute(pi []int) error {
       return errors.New("Permute(): invalid permutation")
     }
   }
-  // permute vector
+  // permute vector (element i of the result is element pi[i] of the
+  // receiver): follow every cycle of the permutation once
+  done := make([]bool, obj.n)
   for i := 0; i < obj.n; i++ {
-    if i != pi[i] && pi[i] > i {
-      // permute elements
-      _, ok1 := obj.values[i]
-      _, ok2 := obj.values[pi[i]]
-      if ok1 && ok2 {
-        obj.values[pi[i]], obj.values[i] = obj.values[i], obj.values[pi[i]]
-      } else
-      if ok1 {
-        obj.values[pi[i]] = obj.values[i]
-        delete(obj.values, i)
-      } else
-      if ok2 {
-        obj.values[i] = obj.values[pi[i]]
-        delete(obj.values, pi[i])
+    for j := i; !done[j]; j = pi[j] {
+      done[j] = true
+      if pi[j] != i {
+        // permute elements
+        _, ok1 := obj.values[j]
+        _, ok2 := obj.values[pi[j]]
+        if ok1 && ok2 {
+          obj.values[pi[j]], obj.values[j] = obj.values[j], obj.values[pi[j]]
+        } else
+        if ok1 {
+          obj.values[pi[j]] = obj.values[j]
+          delete(obj.values, j)
+        } else
+        if ok2 {
+          obj.values[j] = obj.values[pi[j]]
+          delete(obj.values, pi[j])
+        }
       }
     }
   }
